@@ -48,6 +48,8 @@ Const(n, v) == [i \in 1..n |-> v]
 \* axis normalisation as NumPy: valid iff -d <= a < d
 AxisOk(a, d) == a >= -d /\ a < d
 NormAxis(a, d) == IF a < 0 THEN a + d ELSE a          \* 0-based
+NormAxes(axes, d) == [i \in 1..Len(axes) |-> NormAxis(axes[i], d)]
+AxesOk(axes, d) == \A i \in 1..Len(axes) : AxisOk(axes[i], d)
 IsPerm(p, d) == Len(p) = d /\ {p[i] : i \in 1..d} = 0..(d - 1)
 SeqToSet(s) == {s[i] : i \in 1..Len(s)}
 NoDup(s) == Cardinality(SeqToSet(s)) = Len(s)
